@@ -441,13 +441,22 @@ def _tight_needs_space(prev, s):
     return False
 
 
+ODD_CHARS = {"<ff>": "\x0c", "<vt>": "\x0b", "<fs>": "\x1c", "<nel>": "\x85", "<ls>": "\u2028"}
+
+
+def _odd_chars(text):
+    for name, ch in ODD_CHARS.items():
+        text = text.replace(name, "x" + ch + "y")
+    return text
+
+
 def render_layout(tokens, gaps, style, indent="    ", cont="      "):
     """Tokens + layout decisions of spec/PyLayout.tla -> (text, [(start, end) per token]).
 
     gaps: list of {"at": g, "kind": ..., "txt": ...}; gap g is the separator before
     token g (1-based), g = len(tokens) + 1 is the end of the text.
     """
-    deco = {g["at"]: g for g in gaps}
+    deco = {g["at"]: dict(g, txt=_odd_chars(g.get("txt", ""))) for g in gaps}
     out = []
     pos = 0
     spans = []
@@ -469,6 +478,8 @@ def render_layout(tokens, gaps, style, indent="    ", cont="      "):
             emit("\n" + "  # " + d["txt"])
         elif d["kind"] == "blank":
             emit("\n")
+        elif d["kind"] == "ffline":
+            emit("\n\x0c")
 
     for i, (s, d) in enumerate(tokens, 1):
         if d >= 0:
